@@ -171,7 +171,7 @@ func (p LitPat) Match(l Lit) bool {
 	if p.Pol == '+' && !l.Pol || p.Pol == '-' && l.Pol {
 		return false
 	}
-	return p.Re.MatchString(l.Expr)
+	return MatchRe(p.Re, l.Expr)
 }
 
 // Gate is a disjunction of literal patterns and/or must-pass instructions ("call:<regex>" / "instr:<regex>").
@@ -194,4 +194,24 @@ func G(alts ...string) Gate {
 		g.Lits = append(g.Lits, MustLitPat(a))
 	}
 	return g
+}
+
+// seeThrough > 0 while a helper is being examined in its caller's terms (reach.go). In that mode the capture marker `^`
+// is ignored on both sides of a match: extracting code into a helper changes how many closures a variable is captured
+// through, which is not a property of the value.
+var seeThrough int
+
+var caretFree = map[*regexp.Regexp]*regexp.Regexp{}
+
+// MatchRe is the one place where table patterns meet renderings.
+func MatchRe(re *regexp.Regexp, s string) bool {
+	if seeThrough == 0 {
+		return re.MatchString(s)
+	}
+	cf, ok := caretFree[re]
+	if !ok {
+		cf = regexp.MustCompile(strings.ReplaceAll(re.String(), `\^`, ``))
+		caretFree[re] = cf
+	}
+	return cf.MatchString(strings.ReplaceAll(s, "^", ""))
 }
